@@ -89,7 +89,7 @@ pub fn run(args: &[String]) {
         }
     }
     let n = flag_u(args, "--random", 0);
-    let cfg = GenCfg { div: true, mul_max_w: 64, arrays: true };
+    let cfg = GenCfg::wide(true, 64);
     for i in 0..n {
         let mut ctx = Context::default();
         let root = random_root(&mut ctx, &mut rng, &cfg);
@@ -151,7 +151,7 @@ pub fn run_c13(args: &[String]) {
     let mut rng = seed_rng(env_seed());
     let roots_all: Vec<J> = if let Some(inp) = flag(args, "--in") { read_ndjson(inp) } else { vec![] };
     let nrandom = flag_u(args, "--random", 0) as usize;
-    let cfg = GenCfg { div: true, mul_max_w: 64, arrays: true };
+    let cfg = GenCfg::wide(true, 64);
     let mut out = Out::new(&out_path);
     let tick = arm_watchdog(out_path.clone() + ".timeout", 0, 60);
     let nb = roots_all.len().div_ceil(bsz) + nrandom;
